@@ -10,7 +10,7 @@ crate = {'C01': 'duckscript', 'C02': 'duckscript', 'C03': 'duckscript', 'C08': '
 also = {'C09': 'C04', 'C01': 'C08', 'C08': 'C01', 'C13': 'C03', 'C06': 'C04', 'C10': 'C03', 'C11': 'C19', 'C19': 'C12', 'C05': 'C04'}
 def slug(text):
     t = re.sub(r'[^a-z0-9 -]', ' ', text.lower())
-    w = [x for x in t.split() if x not in ('seed', 'seeded', 'defect', 'notes', 'a', 'b', 'the', 'for', 'of', 'property', 'r9', 'r10', 'r11') and not re.match(r'c\d\d$', x)]
+    w = [x for x in t.split() if x not in ('seed', 'seeded', 'defect', 'notes', 'a', 'b', 'the', 'for', 'of', 'property', 'r9', 'r10', 'r11', '-', '--', '---') and not re.match(r'c\d\d$', x)]
     return '-'.join(w[:7])[:60] or 'change'
 todo = []
 for wt in sorted(glob.glob('/tmp/seed_%sC??' % tag)):
